@@ -1,9 +1,9 @@
-\* random walks (-simulate -depth 8): Python source layouts up to 6 items, 4 levels; every complete prefix is emitted
+\* comments that take the converter path of rst(), planted in abstract APIs (thorough tier; each costs process starts)
 CONSTANTS
-  Fns = {"fixws"}
-  Alphabet = {"w3", "w9", "long", "sp", "sps", "tab", "nl", "blank", "li", "star", "plus", "num", "colon", "quote", "tquote", "bslash"}
-  MinLen = 4
-  MaxLen = 0
+  Fns = {"embed"}
+  Alphabet = {"star", "w3", "tquote", "bslash"}
+  MinLen = 0
+  MaxLen = 2
   Widths = {10, 20, 40, 72}
   Indents = {0, 4, 8}
   Offsets = {0, 4, 9, 15, 45}
@@ -11,8 +11,8 @@ CONSTANTS
   RstIndents = {0, 4, 12, 16}
   Kinds = {"stmt", "stmt_t", "und", "imp", "pass", "cmt", "deco", "def", "class", "if", "doc", "strb"}
   Gaps = {"0", "1", "2", "3", "4", "2s", "3s"}
-  MaxItems = 6
-  MaxLvl = 3
+  MaxItems = 2
+  MaxLvl = 2
   Origins = {"message", "field", "enum", "value", "service", "method"}
   Mutant = "none"
 INIT Init
